@@ -291,7 +291,7 @@ def shard(ctx):
 def finish(agg, tier):
     st = agg.stats
     inc = []
-    if st.get("c18.sessions", 0) < (30 if tier == "quick" else 300):
+    if st.get("c18.sessions", 0) < (30 if tier == "quick" else 150):
         inc.append(f"only {st.get('c18.sessions', 0)} sessions")
     if st.get("c18.compiled", 0) < 10:
         inc.append("fewer than 10 sessions ended in a compiled procedure")
